@@ -513,6 +513,11 @@ def draw_case(d, kinds=None, *, degenerate=False, general_position=False,
 
     # ---- data
     spread = d.choice([0.05, 0.3, 1.0])
+    if stable_only and spread == 0.05 and kind in ('cwmm', 'vmfmm', 'vmfcacgmm'):
+        # tightly clustered directions drive the concentration to its clipping
+        # bound, where the metamorphic checks do not judge (a third of the
+        # cases were lost that way)
+        spread = 0.3
     y, labels = cluster_data(rng, lead_, K, N, D, complex_, spread)
     pattern = 'none'
     if degenerate:
@@ -681,6 +686,8 @@ def draw_case(d, kinds=None, *, degenerate=False, general_position=False,
             if stable_only and key in ('spatial_weight', 'spectral_weight',
                                        'inline_permutation_alignment'):
                 continue
+            if key == 'covariance_type' and 'fixed_covariance' in o:
+                continue      # the provided covariance has the drawn type
             o[key] = default
             case.omit.add(key)
         case.meta['defaults'] = sorted(case.omit)
